@@ -58,7 +58,7 @@ func (C09) Budget(tier string) core.Budget {
 	if tier == "thorough" {
 		return core.Budget{Runs: 400000, MaxWall: 15 * 60e9}
 	}
-	return core.Budget{Runs: 30000, MaxWall: 45e9}
+	return core.Budget{Runs: 12000, MaxWall: 35e9}
 }
 
 func (C09) New() any { return &C09Scenario{} }
@@ -78,6 +78,9 @@ func (C09) Gen(t *tape.Tape, tier string) any {
 		in.N = []int{0, 1, 5, 30, 100, 400}[t.Weighted(1, 1, 2, 3, 3, 2)]
 		if in.Pattern == "runs" && in.N > 0 {
 			in.N = 400
+		}
+		if in.Pattern == "partial" {
+			in.N = []int{1500, 2600, 4000}[t.Draw(3)]
 		}
 		nch := t.Draw(4)
 		for j := 0; j < nch; j++ {
